@@ -156,3 +156,49 @@ pub fn big_file(dir: &str, variant: u8, total: u64) -> (i32, Value) {
         "counters": {"sim_bytes_fed": total, "probe.file_gt_MAX": (total > 4_224_281_216) as u64}, "samples": [hist], "violation_count": n, "violations": viol, "wall_s": t0.elapsed().as_secs_f64()});
     (if n > 0 { 1 } else { 0 }, rep)
 }
+
+extern "C" {
+    fn setuid(uid: u32) -> i32;
+    fn setgid(gid: u32) -> i32;
+    fn geteuid() -> u32;
+}
+
+/// hash_file on a world-readable file OWNED BY ANOTHER USER, from an unprivileged process (uid/gid 65534 after
+/// dropping root; open flags that need ownership / CAP_FOWNER fail there).  Runs in its own process.
+pub fn unprivileged(path: &str) -> (i32, Value) {
+    let t0 = std::time::Instant::now();
+    let back = std::fs::read(path).ok();
+    // SAFETY: plain libc calls without pointers; the process only hashes one file afterwards and exits.
+    let dropped = unsafe {
+        if geteuid() == 0 {
+            setgid(65534) == 0 && setuid(65534) == 0
+        } else {
+            true
+        }
+    };
+    let hist = json!({"path": path, "dropped_privileges": dropped});
+    let mut viol = Vec::new();
+    let mut checks = 0;
+    if dropped {
+        if let Some(back) = back {
+            if std::fs::read(path).is_ok() {
+                checks = 1;
+                let got = match tlsh::hash_file(path) {
+                    Ok(h) => h.to_string(),
+                    Err(tlsh::GeneratorOrIOError::GeneratorError(e)) => format!("Err({e:?})"),
+                    Err(tlsh::GeneratorOrIOError::IOError(e)) => format!("IOError({:?})", e.kind()),
+                };
+                let want = render::<tlsh::Tlsh>(&tlsh::hash_buf(&back));
+                if got != want {
+                    viol.push(json!({"index": 400, "class": "hash-file-differs-from-contents", "detail": format!("unprivileged process, {path} (readable, owned by another user): hash_file gives {got}, hash_buf(read(file)) gives {want}"),
+                        "history": hist, "engine": "bigstream", "argv": ["hashfile-unpriv", "--path", path]}));
+                }
+            }
+        }
+    }
+    let n = viol.len();
+    let rep = json!({"scenario": "c12unpriv", "property": "C12", "seed": "0", "evaluations": checks.max(1), "distinct": 1, "distinct_nontrivial": 1,
+        "rule": "hash_file on a readable file owned by another user, from a process without privileges",
+        "counters": {"fault.unprivileged_process": checks}, "samples": [hist], "violation_count": n, "violations": viol, "wall_s": t0.elapsed().as_secs_f64()});
+    (if n > 0 { 1 } else { 0 }, rep)
+}
